@@ -1,7 +1,9 @@
 package props
 
 import (
+	"bytes"
 	"context"
+	"encoding/json"
 	"errors"
 	"fmt"
 	"log/slog"
@@ -12,6 +14,7 @@ import (
 	"strings"
 	"time"
 
+	f1log "github.com/form3tech-oss/f1/v2/internal/log"
 	"github.com/form3tech-oss/f1/v2/internal/metrics"
 	"github.com/form3tech-oss/f1/v2/internal/options"
 	"github.com/form3tech-oss/f1/v2/internal/progress"
@@ -56,6 +59,49 @@ func (h *mapHandler) Handle(_ context.Context, r slog.Record) error {
 func (h *mapHandler) WithAttrs([]slog.Attr) slog.Handler { return h }
 func (h *mapHandler) WithGroup(string) slog.Handler      { return h }
 
+// c19F1Handlers logs the view through f1's own handlers (JSON and text, as configured by internal/log) and reads
+// the counts back from the bytes they write.
+func c19F1Handlers(o *core.Outcome, logFn func(*slog.Logger), su, fa, dr uint64, desc string) bool {
+	var jb, tb bytes.Buffer
+	func() {
+		defer func() {
+			if pv := recover(); pv != nil {
+				o.Violate("log-panic:"+desc, "logging through f1's handlers panicked: %v", pv)
+			}
+		}()
+		logFn(f1log.NewLogger(&jb, f1log.NewConfig().WithJSONFormat(true)))
+		logFn(f1log.NewLogger(&tb, f1log.NewConfig()))
+	}()
+	if o.Verdict == core.Violated {
+		return false
+	}
+	dec := json.NewDecoder(bytes.NewReader(jb.Bytes()))
+	dec.UseNumber()
+	var rec map[string]any
+	if err := dec.Decode(&rec); err != nil {
+		o.Violate("json-log-invalid:"+desc, "the JSON log line is not valid JSON (%v): %q", err, firstN(jb.String(), 300))
+		return false
+	}
+	stats, _ := rec["iteration_stats"].(map[string]any)
+	for k, want := range map[string]uint64{"successful": su, "failed": fa, "dropped": dr} {
+		got := fmt.Sprint(stats[k])
+		if got != strconv.FormatUint(want, 10) {
+			o.Violate("json-log-count:"+desc, "JSON log line states iteration_stats.%s=%s, the data has %d: %q", k, got, want, firstN(jb.String(), 300))
+			return false
+		}
+		tv := "absent"
+		if m := regexp.MustCompile(` iteration_stats\.` + k + `=(-?\d+)`).FindStringSubmatch(tb.String()); m != nil {
+			tv = m[1]
+		}
+		if tv != strconv.FormatUint(want, 10) {
+			o.Violate("text-log-count:"+desc, "text log line states iteration_stats.%s=%s, the data has %d: %q", k, tv, want, firstN(tb.String(), 300))
+			return false
+		}
+	}
+	o.AddObs("f1_handler_lines", 2)
+	return true
+}
+
 var ansiRe = regexp.MustCompile("\x1b\\[[0-9;]*m")
 var progressRe = regexp.MustCompile(`^\[\s*(\S+)\]  ✔ \s*(\d+)  (?:⦸ \s*(\d+)  )?✘ \s*(\d+) \((\d+)/s\)   avg: (\S+), min: (\S+), max: (\S+)$`)
 var iterLineRe = regexp.MustCompile(`^(Successful|Failed|Dropped) Iterations: (\d+) \(([^%]*)%, (\d+)(/second)?\)(.*)$`)
@@ -64,7 +110,7 @@ var startedRe = regexp.MustCompile(`^(\d+) iterations started in (\S+) \((\d+)/s
 func init() {
 	core.Register(&core.Property{
 		ID: "C19",
-		Rule: "gen: generated views.ResultData / ProgressData (counts 0..2^63 incl. inconsistent combinations, durations 0 / ns..days / negative, period 0, errors with newlines, braces, % and template syntax, long paths) rendered with the plain and (stdin pointed at /dev/ptmx) the coloured templates and logged through a structured handler; the text is parsed back. real: the same for Result.Summary()/Progress() of a real Result fed with recorded outcomes. " +
+		Rule: "gen: generated views.ResultData / ProgressData (counts over the whole uint64 range incl. inconsistent combinations, durations 0 / ns..days / negative, period 0, errors with newlines, braces, % and template syntax, long paths) rendered with the plain and (stdin pointed at /dev/ptmx) the coloured templates and logged through a structured handler; the text is parsed back. real: the same for Result.Summary()/Progress() of a real Result fed with recorded outcomes. " +
 			"Oracles: counts in text and in iteration_stats equal the data; banner and log level/message equal the verdict; each percentage equals 100*count/Iterations to 2 decimals; started equals IterationsStarted; coloured == plain after stripping escapes; Render/Log never panic. " +
 			"non-trivial = all of successful/failed/dropped non-zero, or an error present, or a degenerate value (zero iterations, zero/negative duration); distinct = distinct (form, which counts non-zero, error?, failed?, degenerate?, colour observed?) classes",
 		Assumptions: []string{
@@ -136,6 +182,10 @@ func c19GenCount(r interface {
 	case 5:
 		return 100000
 	case 6:
+		if r.IntN(3) == 0 {
+			// the counts are unsigned 64-bit numbers: the upper half of the range is as legal as the lower
+			return r.Uint64() | 1<<63
+		}
 		return r.Uint64() >> 1
 	}
 	return uint64(r.IntN(1000))
@@ -377,6 +427,9 @@ func c19Gen(c *core.Case, o *core.Outcome) {
 			if o.Verdict == core.Violated || !c19CheckResult(o, d, plain, col, cs, h, desc) {
 				return
 			}
+			if !c19F1Handlers(o, vc.Log, d.SuccessfulIterationCount, d.FailedIterationCount, d.DroppedIterationCount, desc) {
+				return
+			}
 			o.AddObs("renders", 1)
 			if cs {
 				o.AddObs("coloured_renders", 1)
@@ -407,6 +460,9 @@ func c19Gen(c *core.Case, o *core.Outcome) {
 				vc.Log(logger)
 			}()
 			if o.Verdict == core.Violated || !c19CheckProgress(o, d, plain, col, cs, h, desc) {
+				return
+			}
+			if !c19F1Handlers(o, vc.Log, d.SuccessfulIterationCount, d.FailedIterationCount, d.DroppedIterationCount, desc) {
 				return
 			}
 			o.AddObs("renders", 1)
@@ -494,6 +550,9 @@ func c19Real(c *core.Case, o *core.Outcome) {
 		}
 		sum.Log(slog.New(h))
 		if !c19CheckResult(o, rd, plain, col, cs, h, desc) {
+			return
+		}
+		if !c19F1Handlers(o, sum.Log, s, f, d, desc) {
 			return
 		}
 		// the percentages must add up to ~100 when every kind is shown
